@@ -13,6 +13,10 @@ FLOATS = [0.0, 1.0, 0.5, 1.5, 2.5, -0.5, 0.1, 0.3, 3.0, 1e3, 2.0]
 BIG = [2 ** 53, 2 ** 53 + 1, -(2 ** 53) - 1, 10 ** 30, 1e308, -1e308, 5e-324, 10 ** 400, 2 ** 1024]
 TYPES = ["string", "integer", "number", "boolean", "null", "array", "object"]
 DESCRIPTIONS = ["A thing.", "desc", "multi\nline", "with 'quotes'", "ünï", "x" * 5]
+# descriptions that must survive character for character (no quote / backslash hazards: those are C07's finding)
+WHITESPACE_DESCRIPTIONS = ["Example document:\n    verbose: true\n    retries: 3", "\nleading blank line", "trailing blank line\n",
+                           "tab\there", "  two leading spaces", "trailing spaces  ", "a\n\n\nb", "    indented first line\n    second",
+                           "x", "ünï çødé ✓", "line1\n\tline2"]
 
 
 class Budget:
